@@ -67,7 +67,8 @@ def iterFrozen (step : Fjord.Mat → Fjord.Mat) (m : Fjord.Mat) : Nat → Fjord.
 
 def fjordIndexFrozen (land : Fjord.Mat) (oceanDist : Int) : Fjord.Mat :=
   let n := land.rows * land.cols
-  let notOcean := if oceanDist - 1 < 1 then iterFrozen Fjord.bdilate land n else iterFrozen Fjord.bdilate land (oceanDist - 1).toNat
+  -- `Fjord.notOcean`: no dilation for an ocean distance of at most one cell
+  let notOcean := if 1 < oceanDist then iterFrozen Fjord.bdilate land (oceanDist - 1).toNat else land
   let inp : Fjord.Mat := freeze { land with val := fun i j => -(notOcean.get 0 i j) - land.get 0 i j }
   iterFrozen Fjord.dilate inp n
 
